@@ -68,8 +68,12 @@ def build(rnd, spec):
     if arrival == 'respawning-check':
         ws[0].update(kind='obedient', np=3, warmup=1)
     gw = 1 if arrival == 'startup' else 0
-    if arrival == 'startup' and len(ws) < 2:
-        ws.append({'name': 'w9', 'kind': 'obedient', 'np': 1, 'gt': 1.0, 'warmup': 0})
+    if arrival == 'startup':
+        # the first watcher is already up (and slow to stop) when the signal arrives, others are still pending
+        ws[0]['kind'] = rnd.choice(['stubborn', 'stubborn', 'slow'])
+        while len(ws) < 3:
+            ws.append({'name': 'w%d' % (7 + len(ws)), 'kind': rnd.choice(['obedient', 'stubborn']), 'np': 1, 'gt': 1.0,
+                       'warmup': 0})
     return {'watchers': ws, 'global_warmup': gw, 'sockets': rnd.random() < .7,
             'pidfile': spec.get('pidfile') or rnd.choice(['none', 'config', 'cli']) if not spec.get('prepid') else 'config'}
 
